@@ -69,6 +69,7 @@ def run(chk):
     runs = []
     kinds = ["cart2", "cart3", "cart3", "chunk2", "chunk3", "annulus", "sphere"]
     for gi in range(14 if quick else 90):
+        rng.seed("%d/c18-1/%d" % (chk.seed, gi))      # every world has its own stream: families do not disturb each other
         kind = kinds[gi % len(kinds)]
         sph = not kind.startswith("cart")
         dim = 2 if kind in ("cart2", "chunk2", "annulus") else 3
